@@ -7,6 +7,8 @@ import TFV.Model.Np
 import TFV.Model.Metrics
 import TFV.Lemmas.Src.MetricCounts
 import TFV.Generated.Src.Metrics_accuracy_score
+import TFV.Generated.Src.Metrics_mse
+import TFV.Model.NpQ
 import Mathlib.Tactic.Ring
 import Mathlib.Data.Rat.Defs
 
@@ -56,6 +58,30 @@ theorem C19_src_accuracy_rejects (a b : List Int) (h : a.length ≠ b.length ∨
     have := hb rfl
     subst this
     simp [Np.eqMask, Np.meanQ]
+
+theorem zipWith_sq_eq (yt yp : List Rat) :
+    (List.zipWith (fun a b => a - b) yt yp).map (fun a => a ^ 2) = (yt.zip yp).map fun (p : Rat × Rat) => (p.1 - p.2) * (p.1 - p.2) := by
+  induction yt generalizing yp with
+  | nil => simp
+  | cons a as ih =>
+    cases yp with
+    | nil => simp
+    | cons b bs => simp only [List.zipWith_cons_cons, List.map_cons, List.zip_cons_cons, ih]; congr 1; ring
+
+/-- the mean squared error inside `root_mean_square_error` (everything before the square root) = `Metrics.mse`, for equally long
+    non-empty vectors (floats read as field elements); with `C19_mse`: it is ≥ 0 and 0 exactly for a perfect prediction -/
+theorem C19_src_mse (yt yp : List Rat) (hl : yt.length = yp.length) (hne : yt ≠ []) :
+    Metrics_mse yt yp = some (mse yt yp) := by
+  have hpos : yt.length ≠ 0 := by
+    intro h; exact hne (List.length_eq_zero_iff.mp h)
+  have hz : ((List.zipWith (fun a b => a - b) yt yp).map (fun a => a ^ 2)).length = yt.length := by simp [hl]
+  unfold Metrics_mse
+  simp only [NpQ.vzip, hl, if_true, bind, Option.bind, NpQ.vmean, hz, pure]
+  rw [zipWith_sq_eq]
+  have hpos' : yp.length ≠ 0 := by rw [← hl]; exact hpos
+  simp only [mse, mean, sumR, List.length_map, List.length_zip, hl, Nat.min_self, hpos', if_false]
+
+example : Metrics_mse [1, 2, 4] [1, 0, 2] = some (8 / 3) := by decide +kernel
 
 example : Metrics_accuracy_score [0, 1, 2, 1] [0, 2, 2, 1] = some (3 / 4) := by decide +kernel
 
